@@ -434,15 +434,47 @@ static void run_cc1(int argc, char **argv, char *input, char *output) {
   run_subprocess(args);
 }
 
+static bool is_word_char(char c) {
+  return isalnum(c) || c == '_' || c == '$' || (c & 0x80);
+}
+
+// Returns true if writing `tok` right after `prev` would make the
+// tokenizer read something other than these two tokens, e.g. `-` `-1`
+// (from `#define N -1` / `-N`), `a` `b`, `1` `.5`, `+` `=`, `/` `*`.
+static bool needs_space(Token *prev, Token *tok) {
+  char x = prev->loc[prev->len - 1];
+  char y = tok->loc[0];
+  bool is_ppnum = isdigit(prev->loc[0]) ||
+                  (prev->loc[0] == '.' && prev->len > 1 && isdigit(prev->loc[1]));
+
+  // identifiers, keywords, pp-numbers and string prefixes
+  if (is_word_char(x) && (is_word_char(y) || y == '"' || y == '\''))
+    return true;
+  if (is_ppnum && (is_word_char(y) || y == '.'))
+    return true;
+  if (is_ppnum && strchr("eEpP", x) && (y == '+' || y == '-'))
+    return true;
+  if (x == '.' && isdigit(y))
+    return true;
+
+  // punctuators and comment openers
+  if (y == '=' && strchr("=!<>+-*/%&|^", x))
+    return true;
+  if (x == y && strchr("+-&|<>#./", x))
+    return true;
+  return (x == '-' && y == '>') || (x == '/' && y == '*');
+}
+
 // Print tokens to stdout. Used for -E.
 static void print_tokens(Token *tok) {
   FILE *out = open_file(opt_o ? opt_o : "-");
 
   int line = 1;
-  for (; tok->kind != TK_EOF; tok = tok->next) {
+  Token *prev = NULL;
+  for (; tok->kind != TK_EOF; prev = tok, tok = tok->next) {
     if (line > 1 && tok->at_bol)
       fprintf(out, "\n");
-    if (tok->has_space && !tok->at_bol)
+    if (!tok->at_bol && (tok->has_space || (prev && needs_space(prev, tok))))
       fprintf(out, " ");
     fprintf(out, "%.*s", tok->len, tok->loc);
     line++;
